@@ -613,11 +613,11 @@ func TestVerifC01NoiseReplay(t *testing.T) {
 		if forge && pure {
 			// every attacker action is a forgery: the victim's and the attacker's key types decide which
 			// Verify runs on the claimed key, so all 16 combinations are run (quick tier: all of them for
-			// single forgeries, a rotating quarter for pairs)
+			// single forgeries without prologue, a rotating quarter or eighth otherwise)
 			n := 0
 			for _, tv := range T {
 				for _, tm := range T {
-					if thorough || len(edits) == 1 || (int(seed)+w.Walk+n)%4 == 0 {
+					if thorough || (len(edits) == 1 && (byteCfgs[cfg.String()] || cfg.Pro == "none" || (int(seed)+w.Walk+n)%4 == 0)) || (int(seed)+w.Walk+n)%8 == 0 {
 						add("forge-types", [3]string{tv, tv, tm}, -1, false)
 					}
 					n++
